@@ -127,6 +127,18 @@ type Maps struct {
 	MP map[string]*int64 `parquet:"mp"`
 }
 
+// DictLists: dictionary-encoded list elements of every value class (long
+// lists reach the chunked dictionary insert paths).
+type DictLists struct {
+	U [][16]byte `parquet:"u,list" parquet-element:",uuid,dict"`
+	S []string   `parquet:"s,list" parquet-element:",dict"`
+	I []int64    `parquet:"i,list" parquet-element:",dict"`
+	R []int32    `parquet:"r,dict"`
+	F [][7]byte  `parquet:"f,list" parquet-element:",dict"`
+	D []float64  `parquet:"d,list" parquet-element:",dict"`
+	B []bool     `parquet:"b,list"`
+}
+
 type Deep struct {
 	A []struct {
 		B []struct {
@@ -516,4 +528,5 @@ func init() {
 	register[OptGroup]("OptGroup")
 	register[Maps]("Maps")
 	register[Deep]("Deep")
+	register[DictLists]("DictLists")
 }
